@@ -8,9 +8,9 @@ open Pandora
 def stopAt (m : DMap) (pos : Nat → Int × Int) (j : Nat) : Bool := !m.inside (pos j) || m.validAt (pos j)
 
 /-- the `break` loop = search of the first step that is outside the image or on a valid pixel -/
-theorem scanLoop_eq (m : DMap) (pos : Nat → Int × Int) : ∀ fuel i, scanLoop m pos fuel i =
+theorem scanLoop_eq (init : Val) (m : DMap) (pos : Nat → Int × Int) : ∀ fuel i, scanLoop init m pos fuel i =
     match (List.range' i fuel).find? (stopAt m pos) with
-    | none => .num 0
+    | none => init
     | some j => if m.inside (pos j) then m.dispAt (pos j) else .nan := by
   intro fuel
   induction fuel with
@@ -100,11 +100,12 @@ theorem runOff_eq (m : DMap) (r c : Nat) (d : Int × Int) :
     runOff m r c d = (List.range' 1 (max m.cols m.rows - 1)).all fun i => !stopAt m (posMc r c d) i := by
   unfold runOff; congr 1; funext i; exact not_stopAt m _ i
 
-/-- mc-cnn mismatch, one direction: the loop `for i in range(1, max_path_length)` returns the disparity of
-    the first valid pixel of the ray, NaN when the ray leaves the image first — and the initial 0 of
-    `np.zeros` when all its `max(rows, cols) − 1` steps stay inside on invalid pixels. -/
-theorem scanMc_eq (m : DMap) (r c : Nat) (hc : c < m.cols) (d : Int × Int) :
-    scanLoop m (posMc r c d) (max m.cols m.rows - 1) 1 =
+/-- mc-cnn mismatch, one direction, accumulator initialised with `np.zeros` (the kernel before e1d31ca): the loop
+    `for i in range(1, max_path_length)` returns the disparity of the first valid pixel of the ray, NaN when the
+    ray leaves the image first — and the initial 0 when all its `max(rows, cols) − 1` steps stay inside on invalid
+    pixels (finding F6b). -/
+theorem scanMc_zero_eq (m : DMap) (r c : Nat) (hc : c < m.cols) (d : Int × Int) :
+    scanLoop (.num 0) m (posMc r c d) (max m.cols m.rows - 1) 1 =
       if runOff m r c d then .num 0 else (firstValid m (rayPts m (posMc r c d))).getD .nan := by
   have hM : max m.cols m.rows = (max m.cols m.rows - 1) + 1 := by
     have : 1 ≤ max m.cols m.rows := Nat.le_trans (by omega) (Nat.le_max_left m.cols m.rows)
@@ -130,6 +131,27 @@ theorem scanMc_eq (m : DMap) (r c : Nat) (hc : c < m.cols) (d : Int × Int) :
     simp only [this, Option.some_or]
     by_cases hin : m.inside (posMc r c d j) = true <;> simp [hin]
 
+/-- mc-cnn mismatch, one direction, accumulator initialised with NaN (the kernel since e1d31ca): exactly the
+    disparity of the first valid pixel of the ray, or NaN -/
+theorem scanMc_nan_eq (m : DMap) (r c : Nat) (hr : r < m.rows) (hc : c < m.cols) (d : Int × Int) (hd : d ∈ dirs16) :
+    scanLoop .nan m (posMc r c d) (max m.cols m.rows - 1) 1 = (firstValid m (rayPts m (posMc r c d))).getD .nan := by
+  have hM : max m.cols m.rows = (max m.cols m.rows - 1) + 1 := by
+    have : 1 ≤ max m.cols m.rows := Nat.le_trans (by omega) (Nat.le_max_left m.cols m.rows)
+    omega
+  rw [scanLoop_eq, firstValid_rayPts]
+  generalize hS : List.range' 1 (max m.cols m.rows - 1) = S
+  have hfull : List.range' 1 (max m.cols m.rows) = S ++ [max m.cols m.rows] := by
+    rw [← hS]; conv => lhs; rw [hM]
+    rw [List.range'_concat]; simp; omega
+  rw [hfull, List.find?_append]
+  cases hf : S.find? (stopAt m (posMc r c d)) with
+  | none =>
+    have hout := ray_leaves_mc hr hc hd (Nat.le_refl (max m.cols m.rows))
+    simp [stopAt, hout]
+  | some j =>
+    simp only [Option.some_or]
+    by_cases hin : m.inside (posMc r c d j) = true <;> simp [hin]
+
 theorem posSgm_zero (r c : Nat) (d : Int × Int) : posSgm r c d 0 = ((r : Int), (c : Int)) := by
   simp [posSgm]
 
@@ -139,7 +161,7 @@ theorem posSgm_succ (r c : Nat) (d : Int × Int) (k : Nat) :
 
 /-- the accumulating loop of `find_valid_neighbors` visits `start + i·d` -/
 theorem scanAcc_eq (m : DMap) (r c : Nat) (d : Int × Int) : ∀ fuel k,
-    scanAcc m d fuel (posSgm r c d k) = scanLoop m (posSgm r c d) fuel (k + 1) := by
+    scanAcc m d fuel (posSgm r c d k) = scanLoop (.num 0) m (posSgm r c d) fuel (k + 1) := by
   intro fuel
   induction fuel with
   | zero => intro k; simp [scanAcc, scanLoop]
